@@ -6,7 +6,8 @@
   R-C07-flag-noninterference  the status / exit code computed by the command layer satisfies its specification on every path with
                            the output flags left unconstrained (so the verdict cannot depend on them)
   R-C07-status-buckets     every reporter's Status -> bucket mapping agrees with one oracle (summary table, console summary,
-                           JUnit test case, JUnit status attribute, SARIF from not_compliant only)
+                           JUnit test case, JUnit status attribute, SARIF from not_compliant only); while the summary table collects
+                           the rules its section maps are only inserted into (the section of a rule does not depend on definition order)
   R-C07-bucket-tables      SARIF turns each message of a failing clause into exactly one result (none dropped for lacking a location)
   R-C07-escaping           XML text of the JUnit report is written through the escaping constructor
 Not claimed: that serde_json/serde_yaml/quick-xml emit well-formed documents; equality of the library loader with the CLI loader (C11).
